@@ -116,6 +116,10 @@ Checks(e) ==
   <<"newman_betweenness", (und /\ conn /\ n >= 2 /\ n <= 6) =>
         LET E == ERNum(e.A)  tau == TreeCount(e.A) IN
         Vec(e, "newman_betweenness", LAMBDA k : NewmanRWB6(e.A, E, tau, k))>>,
+  \* Arenas-type random-walk betweenness: expected arrivals summed over all targets and sources (Defs_RandomWalk:
+  \* adjugates of the integer absorbing matrices); the walk is defined on a connected graph
+  <<"arenas_betweenness", (und /\ conn /\ n >= 2 /\ n <= 5) =>
+        Vec(e, "arenas_betweenness", LAMBDA k : ArenasRWB6(e.A, k))>>,
   <<"newman_betweenness(complete)", (und /\ n >= 3 /\ NLinksU(e.A) = (n * (n - 1)) \div 2) =>
         Vec(e, "newman_betweenness", LAMBDA k : 2 * S + Q(n - 2, n))>>,
   <<"interregional_betweenness", (und /\ Divides(G.Sg)) =>
